@@ -213,6 +213,23 @@ def items_of_text(text):
     return f"(Some {coq_list(terms)})", plain, None
 
 
+def lines_of_text(text):
+    """header lines of a stub, read with two regular expressions (no tokenizer, no parser): `class <dotted name>` and
+    `[async] def <name>(` with the column they start in -> list of Coq `tline` terms.  Continuation lines of a wrapped
+    signature hold parameters, never a header."""
+    import re
+    out = []
+    for ln in text.split("\n"):
+        m = re.match(r"^( *)class\s+([A-Za-z_0-9.]+)\s*[:(]", ln)
+        if m:
+            out.append(f"(TLClass {len(m.group(1))} {coq_list(coq_str(c) for c in m.group(2).split('.'))})")
+            continue
+        m = re.match(r"^( *)(?:async\s+)?def\s+([A-Za-z_0-9]+)\s*\(", ln)
+        if m:
+            out.append(f"(TLDef {len(m.group(1))} {coq_str(m.group(2))})")
+    return out
+
+
 def params_of_def_text(text):
     """for the grammar stream: `def f<params>: ...` -> option (list pentry)"""
     try:
